@@ -221,6 +221,7 @@ class Interp:
         self.grids = [build_grid(s, k) for k, s in enumerate(grids)] if mode != 'plain' else [None] * len(grids)
         self.env = {}
         self.findings = []       # (key, what) found by the node-level oracle
+        self.shaped_ops = []     # kind of object ('f<g>' / 'p' / 's' / '?') handed to every `.shaped` evaluated so far
 
     # -- helpers
     def grid_id(self, g):
@@ -355,6 +356,7 @@ class Interp:
         if t == 'shaped':
             a = self.ev(e[1])
             if self.mode != 'plain':
+                self.shaped_ops.append(describe(a, self).get('tag', '?'))
                 return a.shaped
             g = e[2]            # plain reference: the generator records the grid id
             gs = grid_shape(self.specs[g])
@@ -474,21 +476,25 @@ def describe(v, interp=None):
 
 
 def run_program(prog, mode):
-    """Returns (observations per statement [(var, obs) | ('E', kind, text)], final dump, findings)."""
+    """Returns (observations per statement [(var, obs) | ('E', kind, text)], final dump, findings,
+    per statement the kinds of object handed to `.shaped`)."""
     kw = {} if mode == 'plain' else {'new_style': mode == 'new'}
-    trace, dump, findings = [], None, []
+    trace, dump, findings, shaped_ops = [], None, [], []
     with config(**kw), warnings.catch_warnings():
         warnings.simplefilter('ignore')
         it = Interp(mode, prog['grids'])
         ok = True
         for s in prog['stmts']:
+            nsh = len(it.shaped_ops)
             try:
                 x = it.st(s)
                 trace.append((x, it.observe(x)))
+                shaped_ops.append(it.shaped_ops[nsh:])
             except MachineryError:
                 raise
             except Exception as e:  # noqa
                 trace.append(('E', err_class(e), '%s: %s' % (type(e).__name__, str(e)[:120])))
+                shaped_ops.append(it.shaped_ops[nsh:])
                 ok = False
                 break
         if ok:
@@ -499,7 +505,16 @@ def run_program(prog, mode):
                 except Exception as e:  # noqa
                     dump[x] = {'err': err_class(e)}
         findings = it.findings
-    return trace, dump, findings
+    return trace, dump, findings, shaped_ops
+
+
+def shaped_divergence(old, new):
+    """(index of the first statement in which the two styles hand different kinds of object to the same
+    `.shaped`, kinds under old, kinds under new) or None — from the real runs only"""
+    for i, (a, b) in enumerate(zip(old[3], new[3])):
+        if any(x != y for x, y in zip(a, b)):
+            return i, a, b
+    return None
 
 
 def same_values(a, b, tol=TOL):
@@ -650,6 +665,12 @@ def parse_model_answer(line):
     for sec in secs:
         name, _, body = sec.partition(' ')
         body = body.strip()
+        if name == 'A':
+            flag, _, at = body.partition(' ')
+            if flag not in ('0', '1') or (at == '-') != (flag == '1'):
+                raise MachineryError('model answered %r' % sec)
+            res['A'] = None if flag == '1' else int(at)
+            continue
         res[name] = None if body == '-' else [parse_model_obs(t) for t in body.split(' ') if t]
     return res
 
@@ -1201,6 +1222,21 @@ class Builder:
             to, tn = self.tags_of(base)
             if r < 0.45 and to[0] == 'f' and to == tn:
                 e = ['shaped', base, int(to[1:])]
+                r2 = rng.random()
+                if r2 < 0.06 and k != 'c':
+                    # .shaped of a 0-d result: a 0-d Field on the subclass route, a scalar on the wrapper route
+                    e = ['shaped', ['red', str(rng.choice(['sum', 'max', 'min'])), 'all', sp, base], int(to[1:])]
+                elif r2 < 0.10 and k != 'b' and np.ndim(v) >= 1:
+                    # .shaped of np.where(...): a bare ndarray on the subclass route, a Field on the wrapper route
+                    m = self.mask_like(base)
+                    if m is not None:
+                        inner = ['app3', 'where', sp, m, base, self.scalar('r')]
+                        wo, wn = self.tags_of(inner)      # the wrapper attaches the grid of the leftmost Field argument (the mask's, if it is one)
+                        if wn[0] == 'f' and wo[0] != 'f':
+                            e = ['shaped', inner, int(wn[1:])]
+            elif r < 0.45 and to != tn and (to[0] == 'f' or tn[0] == 'f') and rng.random() < 0.6:
+                # a Field under one style only (accepted divergence; see `oracle`)
+                e = ['shaped', base, int((to if to[0] == 'f' else tn)[1:])]
             elif r < 0.75 and np.ndim(v) >= 1:
                 size = int(np.size(v))
                 divs = [d for d in range(1, size + 1) if size % d == 0]
@@ -1895,10 +1931,13 @@ def _pipelines():
 METHODS = [['scipy'], ['numpy'], ['mkl', 'fftw', 'numpy'], ['mkl', 'scipy', 'fftw', 'numpy']]
 
 
-def all_combos():
+def all_combos(full=False):
+    """quick: 64 combinations in which every *pair* of switches takes all four settings (nft_pre = mft_pre xor mft_alloc,
+    so the two precompute switches vary independently of each other); thorough: the full product (128)"""
     res = []
     for new, emu, pre, alloc, meth in itertools.product([False, True], [True, False], [True, False], [True, False], METHODS):
-        res.append({'new_style': new, 'emulate': emu, 'mft_pre': pre, 'mft_alloc': alloc, 'nft_pre': not pre, 'method': meth})
+        for nft in ([True, False] if full else [pre != alloc]):
+            res.append({'new_style': new, 'emulate': emu, 'mft_pre': pre, 'mft_alloc': alloc, 'nft_pre': nft, 'method': meth})
     return res
 
 
@@ -1907,8 +1946,24 @@ def run_pipeline(name, params, combo):
         warnings.simplefilter('error')
         warnings.filterwarnings('ignore', category=SyntaxWarning)
         warnings.filterwarnings('ignore', category=DeprecationWarning)
+        import hcipy
         out = _pipelines()[name](params)
-        return [np.array(np.asarray(o)) for o in out]
+        style = type(hcipy.Field(np.zeros(2), None))
+        res = []
+        for o in out:
+            a = PipeOut(np.asarray(o))
+            # kind of object handed out: a Field (of the configured style) on which grid, or a bare array
+            a.kind = ('F' if is_field(o) else 'A') if np.ndim(o) > 0 else '0'
+            a.grid = o.grid if is_field(o) else None
+            a.style_ok = (not is_field(o)) or type(o) is style
+            res.append(a)
+        return res
+
+
+class PipeOut(np.ndarray):
+    """the values of one pipeline output, carrying what kind of object it was"""
+    def __new__(cls, arr):
+        return np.array(arr).view(cls)
 
 
 def compare_pipeline(ref, out):
@@ -1918,6 +1973,13 @@ def compare_pipeline(ref, out):
     for i, (a, b) in enumerate(zip(ref, out)):
         if a.shape != b.shape:
             return 'output %d has shape %s instead of %s' % (i, b.shape, a.shape)
+        if not b.style_ok:
+            return 'output %d is a Field of the style that is not configured' % i
+        if a.kind != b.kind:
+            return 'output %d is %s instead of %s' % (i, {'F': 'a Field', 'A': 'a bare array', '0': '0-d'}[b.kind], {'F': 'a Field', 'A': 'a bare array', '0': '0-d'}[a.kind])
+        if a.kind == 'F' and not ((a.grid is None and b.grid is None) or (a.grid is not None and b.grid is not None and a.grid == b.grid)):
+            return 'output %d is a Field on a different grid' % i
+        a, b = np.asarray(a), np.asarray(b)
         if a.size == 0:
             continue
         scale = float(np.max(np.abs(a)))
@@ -2344,6 +2406,7 @@ def oracle(prog, plain, old, new):
             bad.append((key, what))
     ptrace, otrace, ntrace = plain[0], old[0], new[0]
     tainted = set()        # a style whose values already went wrong: later differences are consequences
+    div = shaped_divergence(old, new)
     for i, s in enumerate(prog['stmts']):
         sig = stmt_sig(s)
         if i >= len(ptrace):
@@ -2355,6 +2418,18 @@ def oracle(prog, plain, old, new):
             break
         stop = False
         pairs = (('old', o, n), ('new', n, o))
+        if div is not None and div[0] == i:
+            # accepted divergence: `.shaped` of something that is a Field under one style only (0-d results are
+            # scalars under the wrapper, np.where drops the subclass).  Exactly this is accepted: the style in
+            # which the operand is no Field raises AttributeError; the other style is held to the reference.
+            pairs = []
+            for mode, r, other, kinds in (('old', o, n, div[1]), ('new', n, o, div[2])):
+                if all(k[0] == 'f' for k in kinds):
+                    pairs.append((mode, r, other))
+                elif not (r[0] == 'E' and r[1] == 'attr'):
+                    bad.append(('shaped-of-non-field %s %s' % (mode, sig), '%s: .shaped of a %s does not raise AttributeError with %s-style fields but gives %s' % (
+                        sig, [k for k in kinds if k[0] != 'f'][0], mode, short(r[1]) if r[0] != 'E' else r[2])))
+            stop = True
         if s[0] == 'assign' and s[2][0] == 'ext' and EXT[s[2][1]].get('fieldonly'):
             p = o                       # field-only library function: the styles are compared with each other
             pairs = (('new', n, o),)
@@ -2442,6 +2517,20 @@ def shrink(prog, fails):
 def correspondence(ctx, prog, old, new, answer):
     """real old-style run vs the model's subclass route, real new-style run vs the wrapper route"""
     ans = parse_model_answer(answer)
+    # `agree?` (hypothesis of backends_same_values) against where the real styles first hand different kinds of
+    # object to `.shaped`; the model also inspects `.shaped` nodes that a raising statement never reaches
+    div = shaped_divergence(old, new)
+    real_at = None if div is None else div[0]
+    ctx.traces_validated += 1
+    if ans['A'] != real_at:
+        i = ans['A']
+        raised = i is not None and real_at is None and any(i < len(r[0]) and r[0][i][0] == 'E' for r in (old, new))
+        if raised:
+            ctx.count('agree:model-0-node-unreached')
+        else:
+            ctx.disagree('C19 agree? vs real .shaped operands', {'prog': prog, 'model_first_disagreeing_stmt': ans['A'], 'impl_first_disagreeing_stmt': real_at,
+                                                                'impl_kinds': None if div is None else [div[1], div[2]]})
+    ctx.count('agree:%s' % ('1' if ans['A'] is None else '0'))
     for mode, run, tkey, dkey in (('old', old, 'O', 'DO'), ('new', new, 'N', 'DN')):
         mtrace = ans[tkey] or []
         rtrace = run[0]
@@ -2878,6 +2967,16 @@ DIRECTED = [
     {'grids': G4, 'final': [0], 'stmts': [['assign', 0, _f(0, [1, 2, 3, 4])], ['assign', 1, ['bin', 'add', 0, ['var', 0], ['lit', [3], 'r', [1.0, 2.0, 3.0], []]]]]},
     {'grids': G4, 'final': [0], 'stmts': [['assign', 0, _f(0, [1, 2, 3, 4])], ['assign', 1, ['idx', 'atl', [4], ['var', 0]]]]},
     {'grids': [{'dims': [4], 'sep': False}], 'final': [0], 'stmts': [['assign', 0, _f(0, [1, 2, 3, 4])], ['assign', 1, ['shaped', ['var', 0], 0]]]},
+    # accepted divergence, generated on purpose (model: `agree?` = false at that statement): `.shaped` of something that
+    # is a Field under one style only — 0-d result (1-point grid: works / AttributeError; 4 points: ValueError / AttributeError),
+    # np.where (AttributeError / works), a product with a 0-d result, and one statement later than the first `.shaped`
+    {'grids': [{'dims': [1], 'sep': True}], 'final': [0], 'stmts': [['assign', 0, _f(0, [3])], ['assign', 1, ['shaped', ['red', 'max', 'all', 0, ['var', 0]], 0]]]},
+    {'grids': G4, 'final': [0], 'stmts': [['assign', 0, _f(0, [1, 2, 3, 4])], ['assign', 1, ['shaped', ['red', 'sum', 'all', 1, ['var', 0]], 0]]]},
+    {'grids': G4, 'final': [0], 'stmts': [['assign', 0, _f(0, [1, -2, 3, -4])],
+                                         ['assign', 1, ['shaped', ['app3', 'where', 0, ['bin', 'gt', 0, ['var', 0], ['scal', 'r', 0.0, 0.0, 0]], ['var', 0], ['scal', 'r', 0.5, 0.0, 0]], 0]]]},
+    {'grids': G4, 'final': [0, 1, 2], 'stmts': [['assign', 0, _f(0, [1, 2, 3, 4])], ['assign', 1, ['shaped', ['var', 0], 0]],
+                                               ['assign', 2, ['bin', 'mul', 0, ['red', 'sum', 'all', 0, ['var', 0]], ['lit', [4], 'r', [1.0, 2.0, 0.5, 1.0], []]]],
+                                               ['assign', 3, ['bin', 'add', 0, ['shaped', ['var', 2], 0], ['scal', 'r', 1.0, 0.0, 0]]]]},
     # the wrapper-specific paths: tuple-valued ufuncs, where=, in-place methods, conversions
     {'grids': G4, 'final': [0], 'stmts': [['assign', 0, _f(0, [1.5, -2, 3, 4])], ['assign', 1, ['ext', 'divmod', [['var', 0], ['var', 0]]]]]},
     {'grids': G4, 'final': [0], 'stmts': [['assign', 0, _f(0, [1.5, -2, 3, 4])], ['assign', 1, ['ext', 'add_where_outfield', [['var', 0], ['var', 0]]]]]},
@@ -2948,6 +3047,10 @@ def check_program(ctx, prog, label):
                             if o[0] != 'E' and n[0] != 'E' and isinstance(o[1], dict) and isinstance(n[1], dict))))
     for t in tags:
         ctx.count('tags old/new:%s/%s' % t)
+    div = shaped_divergence(old, new)
+    if div is not None:
+        k = [(a, b) for a, b in zip(div[1], div[2]) if a != b][0]
+        ctx.count('accepted-divergence:shaped-of-%s/%s' % (k[0][0], k[1][0]))
     sig = (label, nst, tuple(stmt_sig(s) for s in prog['stmts']), errored)
     ctx.case({'label': label, 'stmts': [stmt_sig(s) for s in prog['stmts']]} if nst > 4 else None,
              nontrivial_key=sig if nst >= 3 else None)
@@ -2971,7 +3074,7 @@ def run(ctx):
                 'dtype classes and exception classes at every statement and in the final read-out of every variable (aliases included); '
                 'every elementwise node with a Field operand must return a Field on that grid; copy/pickle must return an independent equal '
                 'Field. Correspondence: tag (Field+grid / ndarray / scalar), shape, dtype class and values of every observation of each '
-                'style against the matching model route. Pipelines: 20 library computations (incl. hcipy._math.fft called directly on four dtypes) under all 64 configuration combinations '
+                'style against the matching model route. Pipelines: 20 library computations (incl. hcipy._math.fft called directly on four dtypes) under 64 configuration combinations (every pair of switches in all four settings; thorough: the full product of 128) '
                 'against the default; 8 kinds of Fourier object (MFT 2-D/1-D, FFT 2-D/1-D, FourierFilter, NFT, make_fourier_transform, ZoomFFT) each REUSED over scripted and random call sequences (precision changes, tensor-shape changes, forward/backward) under every relevant switch x field style x backend, every call compared with a fresh object under the same configuration and with the default configuration; NFT / MFT / make_fourier_transform on polar (separated, regular, unstructured) and explicitly or automatically weighted Cartesian grids as input, output or both, under every option combination, forward / backward / transformation matrices against the defining weighted Fourier sum computed by the harness. Non-trivial = at least three statements; distinct by the sequence of statement signatures.')
     ctx.assumptions += ['plain ndarray arithmetic is the reference for the values',
                         'dyadic inputs: results are exact or within 1e-12 of the exact value',
@@ -3019,7 +3122,7 @@ def _run(ctx):
     # pipelines
     default = snapshot_config()
     default = {k: default[k] for k in ('new_style', 'emulate', 'mft_pre', 'mft_alloc', 'nft_pre', 'method')}
-    combos = all_combos()
+    combos = all_combos(full=(ctx.tier == 'thorough'))
     names = sorted(_pipelines())
     reps = ctx.scale(1, 6)
     for rep in range(reps):
